@@ -11,6 +11,7 @@ import VK.Model.Metric
 import VK.Model.BallotGraph
 import VK.Model.Loaders
 import VK.Model.Interval
+import VK.Model.Dist
 open Lean VK VK.Codec
 
 def getSTVCfg (j : Json) : D STVCfg := do
@@ -326,6 +327,17 @@ def handle (j : Json) : D Json := do
     let c ← getRat (← field j "cohesion")
     pure (Json.mkObj [("ok", .arr ((slateBtPdf a b c).map (fun tp =>
       Json.arr #[.arr (tp.1.map Json.bool).toArray, jRat tp.2])).toArray)])
+  | "rd_law" => do
+    let p ← getProfile (← field j "profile")
+    let sc := match firstPlaceVotes p with | .ok s => s | _ => []
+    let law := fun (d : Dist Cand) => Json.arr (p.cands.map (fun c => Json.arr #[jNat c, jRat (d.prob c)])).toArray
+    pure (Json.mkObj [("ok", Json.mkObj [("rd", law (rdStepDist p)), ("brd", law (brdStepDist p sc)),
+      ("rd_mass", jRat (rdStepDist p).mass)])])
+  | "shuffle_law" => do
+    let n ← getNat (← field j "n")
+    let d := shuffleDist n (List.range n)
+    let ps := (perms (List.range n)).map (fun o => d.prob o)
+    pure (Json.mkObj [("ok", Json.mkObj [("probs", .arr (ps.map jRat).toArray), ("mass", jRat d.mass)])])
   | "pairwise" => do
     let p ← getProfile (← field j "profile")
     let d := pairwiseDict p
